@@ -59,6 +59,10 @@ class Contract:
     # assumed contracts on calls the verifier does not look into, keyed by the call's function text
     # (e.g. "parse", "args.file.read", "source.rebuild"); every use is listed under assumptions
     externals: dict = field(default_factory=dict)
+    # call-site assertions: callee name -> clauses over the callee's parameter names and the caller's
+    # variables, checked as obligations where this function calls that callee ("the addressed layer is ...")
+    call_asserts: dict = field(default_factory=dict)
+    allocates: bool = True
 
     def __post_init__(self):
         if not self.name:
@@ -80,6 +84,11 @@ class External:
     ensures: list = field(default_factory=list)
     exsures: dict = field(default_factory=dict)
     note: str = ""
+    modifies: list = field(default_factory=list)
+    allocates: bool = False
+    fresh: bool = False  # the result is a freshly allocated object (content unconstrained)
+    preserves: list = field(default_factory=list)  # caller-side locations a `*` frame does not reach (fresh locals)
+    name: str = "external"
 
 
 REGISTRY: dict[str, Contract] = {}
